@@ -232,6 +232,9 @@ def depends_on(e: T, a: T):
 def run(ctx) -> Report:
     rep = Report("C14")
     prog = ctx.prog
+    # the memo-key clause first: it needs no interpretation, and what it finds is reported even if a later clause cannot follow the code
+    from ..memokey import check_memo_keys, memo_rule  # noqa: F401
+    memo_rule(ctx, rep, "C14-key", ['ufl.algorithms.check_arities'])
     ctx.crosscheck_dispatch({"ArityChecker"})
     fn = prog.get_function(MOD, "check_integrand_arity")
     acls = prog.get_class(f"{MOD}.ArityChecker")
@@ -342,5 +345,4 @@ def run(ctx) -> Report:
     rep.assumptions = ["compound tensor operators (inner/dot/outer) never reach the arity check as run by compute_form_data (they are lowered first): their handlers are not part of the claim", "soundness direction only (accepted => multilinear); rejecting a multilinear integrand is not a violation of the property", "finite integrand family"]
     from ..memokey import memo_rule
 
-    memo_rule(ctx, rep, "C14-key", ['ufl.algorithms.check_arities'])
     return rep
